@@ -28,13 +28,15 @@ def plan(tier, seed):
 
 
 def floors(tier):
-    strata = ["%s/%s" % (b, d) for b in ("svg", "tikz") for d in TL.DIRECTIONS] + ["multi-layer", "neighbours-closer-than-3", "negative-origin", "half-integer-width"]
+    strata = ["%s/%s" % (b, d) for b in ("svg", "tikz") for d in TL.DIRECTIONS] + ["multi-layer", "neighbours-closer-than-3", "negative-origin", "half-integer-width", "multi-layer-nothing-displaced"]
     return {"evaluations": 600, "strata": strata, "events": {"TimelineSVG.export": 300, "TimelineTex.export": 300, "Force.compute": 600}, "distinct_nontrivial": 100,
-            "max_inconclusive_frac": 0.05}
+            "max_inconclusive_frac": 0.01}
 
 
 def gen(rng):
-    spec = TL.gen_spec(rng, c08=True, n=rng.choice([2, 3, 5, 8, 12, 20, 40]))
+    if rng.random() < 0.1:
+        return TL.gen_spec(rng, c08=True, identity=True)
+    spec = TL.gen_spec(rng, c08=True, n=rng.choice([2, 3, 5, 8, 12, 20, 40]), identity=False)
     o = spec["options"]
     lab = o.setdefault("labella", {})
     if "nodeSpacing" in lab and lab["nodeSpacing"] < 3:
@@ -82,6 +84,8 @@ def run_spec(ctx, mons, spec):
         ctx.judge(stratum, HELD, case if (len(ctx.samples) < 2 and len(spec["data"]) <= 3) else None, nontrivial=close or multi, dig=kind + repr(spec))
         if multi:
             ctx.stratum("multi-layer", generated=1, judged=1, held=1)
+            if res.get("moved") is False:
+                ctx.stratum("multi-layer-nothing-displaced", generated=1, judged=1, held=1)
         if close:
             ctx.stratum("neighbours-closer-than-3", generated=1, judged=1, held=1)
         if any(b["origin"][0] < 0 and b["origin"][1] < 0 or (geo.horizontal and b["origin"][0] < 0) or (not geo.horizontal and b["origin"][1] < 0) for b in P.boxes):
